@@ -325,6 +325,15 @@ def check(prog, run):
                        "an AttributeError/TypeError would leave validation or execution as an internal exception",
                        ["py_gql.validation", "py_gql.utilities", "py_gql.execution"], 120, seed)
 
+    # ---- W1 pairwise wrapper comparison (response-shape conflicts), shared with C06
+    from .. import pairwrap
+    pairwrap.check(prog, run, "W1", ["py_gql.validation", "py_gql.schema.schema"], 2)
+
+    # ---- S1 narrow sentinel handlers in validation and the coercion utilities
+    from .. import sentinel
+    sentinel.check(prog, run, "S1", ["py_gql.validation", "py_gql.utilities"], 3,
+                   "a KeyError raised while validating or collecting would be read as `unknown name` and the document accepted")
+
     r = run.rule("A1", "every local variable read in execution/** and utilities/** functions is assigned on every path reaching "
                        "the read (definite assignment over the CFG incl. exception edges)", 100)
     mods = [m for m in prog.modules.values() if m.name.startswith("py_gql.execution") or m.name.startswith("py_gql.utilities")]
